@@ -158,6 +158,12 @@ func insertUtcTime(t time.Time) (seconds uint32, fraction uint32) {
 	// running extractUtcTime and then insertUtcTime will produce
 	// different results because of rounding that heppns twice.
 	// 1 is added to avoid truncating the second time.
-	fraction = uint32((((nanos % 1e9) + 1) << 32) / 1e9)
+	frac := (((nanos % 1e9) + 1) << 32) / 1e9
+	if frac > 0xFFFFFFFF {
+		// 999999999 ns plus the 1 above is a whole second: keep the largest
+		// fraction instead of wrapping to 0, which reads back a second early
+		frac = 0xFFFFFFFF
+	}
+	fraction = uint32(frac)
 	return
 }
